@@ -5,6 +5,10 @@ TRUSTED_BASE = [
     "hand-written Lean model of the Rust code, tied to /repo's working tree by the correspondence harness (differential, sampled; generators listed under coverage.correspondence)",
     "translator/extract.py for generated tables (cross-checked by exhaustive queries of the real lookup functions)",
     "rustc/cargo building /repo with --cfg alpha_g_verif; the Lean compiler for the model driver",
+    "driver only (no theorem mentions them): Lean's Float (IEEE binary64 via the C runtime), the C library's sin/cos/atan2/log/sqrt, "
+    "and hypot bound with @[extern \"hypot\"] in Driver/C14b.lean — the same libm functions Rust's f64 methods call on this machine",
+    "a generated module whose source the translator can no longer parse stays at its last extracted version and is then tied by the "
+    "correspondence run only (reported under coverage.translator_notes)",
 ]
 
 RUN_HISTORY = ["wire_gain", "wire_baseline", "wire_delay", "pad_baseline", "pad_gain", "pad_delay", "wire_preamp",
